@@ -33,8 +33,10 @@ TIERS = {
         "lookup": dict(BASE, NameSel={1, 2, 3, 4, 5, 6, 7}, GridSel={1, 2, 3, 4}, DoLookup=True, EmitMod=2),
         "lookup3": dict(BASE, NameSel={1, 2, 3, 5, 6}, GridSel={1, 2, 3}, MaxPatches=3, DoLookup=True, EmitMod=24),
         "verify": dict(BASE, NameSel={1, 3, 6}, LabelCounts={1, 2}, GridSel={2, 3}, MaxPatches=1, DigestCfgs=ALLDIG, DoVerify=True),
-        "apply": dict(BASE, NameSel={2, 3, 6}, LabelCounts={1}, GridSel={1, 3}, DigestCfgs={1, 2, 5, 9}, DoApply=True, MaxOps=3,
-                      ApplyVariantKinds={'"same"', '"permall"', '"swap"', '"perm"'}, EmitMod=256),
+        "apply": dict(BASE, NameSel={2, 3, 6}, LabelCounts={1}, GridSel={1, 3}, DigestCfgs={1, 2, 5, 9}, DoApply=True, MaxOps=2,
+                      ApplyVariantKinds={'"same"', '"permall"', '"swap"', '"perm"'}, EmitMod=32),
+        "apply3": dict(BASE, NameSel={3, 6}, LabelCounts={1}, GridSel={1, 3}, DigestCfgs={2, 5}, DoApply=True, MaxOps=3,
+                       ApplyVariantKinds={'"same"', '"permall"', '"swap"'}, EmitMod=32),
     },
 }
 # the smallest model on which the implementation-shaped layer is compared with the definition layer everywhere
